@@ -479,3 +479,12 @@ Definition ast_of_faithful_stmt : Prop :=
 (* the hypotheses of the round-trip theorems are satisfiable (witness: YpRoundExample.v) *)
 Definition roundtrip_hyps_satisfiable_stmt : Prop :=
   forall k, exists l ag, wf_agram k ag /\ wf_layout l ag.
+
+(* every rule block's action type is the action type of its rule: the one written after "->"
+   (Grmtools dialect), else the %actiontype — this is where "blocks of one rule agree" is needed *)
+Definition block_type (ag : agram) (x : arule) : option str :=
+  match ar_type x with Some t => Some t | None => ag_actiontype ag end.
+Definition ast_of_block_types_stmt : Prop :=
+  forall k fa l ag, wf_agram k ag ->
+    forall x, In x (ag_rules ag) ->
+      exists r, In r (a_rules (ast_of fa l ag)) /\ r_name r = ar_name x /\ r_actiont r = block_type ag x.
